@@ -8,6 +8,7 @@ use serde::{Deserialize, Serialize};
 use serde_json::{json, Value};
 use std::collections::BTreeMap;
 use std::ffi::OsString;
+use std::os::unix::ffi::OsStrExt;
 
 pub static DEF: PropDef = PropDef {
     id: "C08",
@@ -401,12 +402,62 @@ fn glob_escape(p: &str) -> String {
     s
 }
 
+// ---- the root directory as a starting point --------------------------------------------------------
+
+/// "/" has no parent directory and no name: `find / -maxdepth 0 -exec[dir] rec {} +` must still hand it
+/// to exactly one invocation (read-only: `Ctx::find_system_readonly`, the recorder only logs).
+#[derive(Serialize, Deserialize, Debug, Clone)]
+pub struct RootDirCase {
+    pub execdir: bool,
+    pub spelling: String,
+}
+
+fn check_rootdir(ctx: &mut Ctx, c: &RootDirCase) -> Outcome {
+    use std::os::unix::fs::MetadataExt;
+    let log = ctx.root.join("rec.log");
+    let _ = std::fs::remove_file(&log);
+    std::env::set_var("VERIF_REC_LOG", &log);
+    std::env::set_var("VERIF_REC_SCRIPT", "");
+    let rec = crate::engine::proc::rec_bin().to_string_lossy().into_owned();
+    let args: Vec<&str> = vec![&c.spelling, "-maxdepth", "0", if c.execdir { "-execdir" } else { "-exec" }, &rec, "{}", "+"];
+    let o = ctx.find_system_readonly(&args);
+    if let Some(p) = o.panic {
+        return fail(format!("C08:panic:{}", p.split(": ").next().unwrap_or("?")), format!("find {args:?}: {p}"));
+    }
+    let recs = read_rec_log(&log);
+    let kind = if c.execdir { "execdir" } else { "exec" };
+    let desc = format!("find {} -maxdepth 0 -{kind} rec {{}} +\nexit {} stderr {:?}\nobserved invocations {:?}", c.spelling, o.status, lossy(&o.stderr), recs.iter().map(|r| (lossy(&r.cwd), r.args.iter().map(|a| lossy(a)).collect::<Vec<_>>())).collect::<Vec<_>>());
+    if recs.len() != 1 || recs[0].args.len() != 1 {
+        return fail(format!("C08:root-directory:{}:{kind}", if recs.is_empty() { "never-passed-to-an-invocation" } else { "passed-more-than-once" }), desc);
+    }
+    let cwd = std::path::PathBuf::from(std::ffi::OsStr::from_bytes(&recs[0].cwd));
+    let arg = std::path::PathBuf::from(std::ffi::OsStr::from_bytes(&recs[0].args[0]));
+    let root = std::fs::metadata("/").unwrap();
+    let named = std::fs::metadata(cwd.join(&arg)).ok();
+    if named.map(|m| (m.dev(), m.ino())) != Some((root.dev(), root.ino())) {
+        return fail(format!("C08:root-directory:argument-does-not-name-it:{kind}"), desc);
+    }
+    if !c.execdir && recs[0].args[0] != c.spelling.as_bytes() {
+        return fail("C08:root-directory:path-text-differs:exec", desc);
+    }
+    if o.status != 0 {
+        return fail(format!("C08:root-directory:exit-{}:{kind}", o.status), desc);
+    }
+    Pass::new(true).class("root-directory-as-starting-point").sample(json!({"cmdline": format!("find {} -maxdepth 0 -{kind} rec {{}} +", c.spelling), "cwd": lossy(&recs[0].cwd), "argument": lossy(&recs[0].args[0])})).ok()
+}
+
 fn run(w: &mut Worker) {
     w.regress::<Case>("batches", check);
     let big = w.tier == crate::engine::Tier::Thorough;
     w.random("batches", w.tier.pick(2_400, 30_000), (40, 120), 60, move |g| gen_case(g, big), check);
+    w.regress::<RootDirCase>("root-directory", check_rootdir);
+    let rd: Vec<RootDirCase> = ["/", "//", "/."].iter().flat_map(|sp| [false, true].map(|execdir| RootDirCase { execdir, spelling: sp.to_string() })).collect();
+    w.exhaustive("root-directory", "find / (also //, /.) -maxdepth 0 -exec|-execdir rec {} + : one invocation, whose argument names the root directory", rd.into_iter(), check_rootdir);
 }
 
-fn replay(w: &mut Worker, _sub: &str, v: Value) -> Outcome {
+fn replay(w: &mut Worker, sub: &str, v: Value) -> Outcome {
+    if sub == "root-directory" {
+        return check_rootdir(&mut w.ctx, &decode(v));
+    }
     check(&mut w.ctx, &decode(v))
 }
